@@ -22,7 +22,10 @@ say "demo_cmd: $DEMO_CMD"
 # make sure the patch is applied in the worktree
 if git apply --check -R SEED/patch.diff 2>/dev/null; then :; else git apply SEED/patch.diff 2>>$LOG || { say "cannot bring worktree to patched state"; exit 1; }; fi
 git checkout go.mod go.sum 2>/dev/null
-go build ./... >>$LOG 2>&1 && say "build with patch: ok" || { say "build with patch: FAILED"; exit 1; }
+mv SEED /tmp/SEED.build.$$
+go build ./... >>$LOG 2>&1; BRC=$?
+mv /tmp/SEED.build.$$ SEED
+[ $BRC -eq 0 ] && say "build with patch: ok" || { say "build with patch: FAILED"; exit 1; }
 ( eval "$DEMO_CMD" ) > $OUT/demo_with.log 2>&1; RC_WITH=$?
 say "demo with patch: exit $RC_WITH (expected non-zero)"
 git apply -R SEED/patch.diff
